@@ -1,5 +1,6 @@
 import Driver.Codec
 import Driver.Segment
+import Driver.Wal
 open Driver
 
 def runStateless (f : String → String) : IO Unit := do
@@ -21,5 +22,6 @@ def runStateful {σ : Type} (init : σ) (f : σ → String → σ × String) : I
 def main (args : List String) : IO UInt32 := do
   match args with
   | ["codec"] => runStateless codecLine; return 0
+  | ["wal"] => runStateful ({} : WalSt) walLine; return 0
   | ["segment"] => runStateful ({} : SegSt) segLine; return 0
   | _ => IO.eprintln "usage: driver <suite>"; return 2
